@@ -64,7 +64,7 @@ def b_zaid(ch):
 
 
 SUB = [(1, 1), (8, 16), (26, 0), (92, 235), (6, 12), (100, 257)]
-FRACS = ['1.', '0.5', '2.5e-2', '1e-30', '4', '5.0e-8', '3.0e+7']
+FRACS = ['1.', '0.5', '2.5e-2', '1e-30', '4', '5.0e-8', '3.0e+7', '0']     # '0': a nuclide listed but absent
 
 
 def b_forms(ch):
@@ -82,6 +82,8 @@ def b_forms(ch):
         if sign.startswith('mixed') and n == 1:
             ch.reject()
         entries.append((z, a, ('-' + f) if neg else f))
+    if all(float(e[2]) == 0.0 for e in entries):
+        ch.reject('no nuclide present')
     rho = ch.choose('rho', ['-2.5', '0.05', '-1.0e-3', '6.4-2', '2.5e-8', '-3.0e-9', '7.5e+7'])
     suffix = ch.choose('suffix', ['', '.70c', '.80c', '.03c'])
     kwpos = ch.choose('kwpos', ['none', 'after', 'before', 'between'])
